@@ -424,7 +424,12 @@ mod unstable {
                 }
             },
         }
-        result
+        // Two equalities defining the same variable (e.g. a duplicated conjunct `X = t`) are not
+        // a transitive equality: dropping one as the definition of the "other" variable would
+        // drop every copy and lose the constraint. Only the trivial `X = X` may be dropped.
+        result.filter(|(keep_var, drop_var, drop_term)| {
+            keep_var != drop_var || drop_term.term == drop_term.guards[0].term
+        })
     }
 
     /// Inverse function to conjoin
